@@ -150,3 +150,12 @@ Proof. split; reflexivity. Qed.
 (* the grammar (and the parser) take any scalar as an array key: a:1:{N;N;} is the map {"" => null} *)
 Example ex_lenient_key : unserialize [97;58;49;58;123; 78;59; 78;59; 125] = POk (VMap [([], VNull)]).
 Proof. vm_compute. reflexivity. Qed.
+
+(* ArrayValue slots with names (fix: 33b6ee5): [5 => 1, 2] keeps its keys; names that only look like ints stay strings *)
+Example ex_keyed_slots :
+  match serialize (VArr [([53], VInt 1); ([], VInt 2)]) with Some t => unserialize t | None => PFail end
+  = POk (VMap [([53], VInt 1); ([49], VInt 2)]).
+Proof. vm_compute. reflexivity. Qed.
+Example ex_slot_keys : slot_key 0 [53] = VInt 5 /\ slot_key 0 [43; 53] = VStr [43; 53] /\ slot_key 0 [48; 55] = VStr [48; 55]
+                       /\ slot_key 3 [] = VInt 3.
+Proof. vm_compute. repeat split. Qed.
